@@ -169,6 +169,10 @@ def main():
         # the flag on ONE space only: (trial swapped, test plain) on the grid == (trial plain, test swapped) on the flipped grid
         actions.append(("flip_vs_swapped_trial_only", mflip, 1.0, ((flipdom, None), (None, flipdom)), "relabel"))
         actions.append(("flip_vs_swapped_test_only", mflip, 1.0, ((None, flipdom), (flipdom, None)), "relabel"))
+        # where only ONE side's normal enters the operator (double layer: trial normal, adjoint: test normal; scalar spaces) the
+        # flag on that side alone is equivalent to the physically reversed grid without any flag
+        actions.append(("flip_vs_trial_flag_only_plain", mflip, 1.0, ((flipdom, None), (None, None)), "relabel"))
+        actions.append(("flip_vs_test_flag_only_plain", mflip, 1.0, ((None, flipdom), (None, None)), "relabel"))
         grid = M.to_grid(mesh)
         ea, va = np.asarray(grid.edge_adjacency), np.asarray(grid.vertex_adjacency)
         adj_seen["edge"] |= {tuple(c) for c in ea[2:].T.tolist()}
@@ -191,6 +195,8 @@ def main():
             for fam, op, tk, sk, k in cfgs:
                 cid = "%s:%s:%s.%s[%s,%s]" % (mname, aname, fam, op, tk, sk)
                 if not ctx.want(cid):
+                    continue
+                if aname.endswith("_only_plain") and not ((aname == "flip_vs_trial_flag_only_plain" and op == "double_layer") or (aname == "flip_vs_test_flag_only_plain" and op == "adjoint_double_layer")):
                     continue
                 if aname.endswith("_only") and not (op in ("double_layer", "adjoint_double_layer", "hypersingular", "magnetic_field") or "SNC" in (tk, sk)):
                     continue   # one-sided flags only where the normal enters the operator
